@@ -20,7 +20,9 @@ _THEOREM_NAMES = ["C02_trav_iff_reachable", "C02_exact", "C02_exact_reachable", 
                   "C02_refs_are_the_rows", "C02_closed_iff_rows", "C02_rows_defined", "C02_schema_closed",
                   "C02_save_within", "C02_model_schemas_closed", "C02_save_refs_declared", "C02_exact_objects",
                   "C02_tag_contents_nodup", "C02_opSave_rows_defined", "C02_opSave_exact_objects",
-                  "C02_opSave_tag_contents_nodup"]
+                  "C02_opSave_tag_contents_nodup",
+                  # follow-up (wave 5): an object referenced from several places
+                  "C02_defined_exactly_once", "C02_opSave_defined_exactly_once"]
 THEOREMS = [_T + n for n in _THEOREM_NAMES]
 LEVEL_TEXT = ("Lean theorems over the AOEF model (shared with C01): the document `save c` writes is closed under "
               "reference, its identifiers are unique per list, a sequence's parent precedes it, tag ids are dense and "
@@ -34,7 +36,12 @@ LEVEL_TEXT = ("Lean theorems over the AOEF model (shared with C01): the document
               "The executable statement of the property (Lean `closed` / `unique` / `parentFirst`, `defs = reachKeys`, "
               "tag contents once) is evaluated on the documents the real code writes — pool-generated graphs, trees "
               "in which every reference is the only path to its target, exhaustive present/absent child lists, parent "
-              "chains of depth 0..5 with shared parents in both conversion orders, identifiers shared across kinds, "
+              "chains of depth 0..5 with shared parents in both conversion orders, one object referenced from several "
+              "places at every level (a clip annotation / clip prediction / match shared by several clip evaluations, "
+              "an annotation / prediction shared by several clip annotations / predictions, a sound event / sequence "
+              "under annotations, predictions, sequences and as a parent, several users / tags / notes / recordings / "
+              "clips / sound events / sequences of a tree made one object, in every collection type that can hold "
+              "them; theorem C02_defined_exactly_once), identifiers shared across kinds, "
               "collections that are instances of user-defined subclasses or come from model_validate / model_copy / "
               "tuples, histories of saves in one process to one file path (other types over the same Python objects, "
               "re-identified objects, an object modified in place, a poisoned return value and an `exclude` call in "
